@@ -52,7 +52,8 @@ RULE = ("Every case is executed by every child process of the pool (hash seeds 0
         "hits (equal starts), scores from a 3-value set, both modes; hmmer: HmmerHits around overlap_limit with "
         "equal normalised scores; filter: HSPs of equivalent profiles overlapping by 19-22 with equal scores; "
         "detect: records of 2-8 genes (gaps around the cutoff, optional origin-spanning gene), 1-4 rules built from "
-        "condition templates over 6 dynamic profiles, often sharing cutoff/neighbourhood so that protoclusters of "
+        "condition templates over 6 dynamic profiles (plain names, or names equal up to case / prefixes of each other / "
+        "differing only in '-' and '_' / digits against letters, several of them defining one rule on one gene), often sharing cutoff/neighbourhood so that protoclusters of "
         "different products get equal coordinates, superiors, extenders, existing subregions; areas: 1-6 "
         "protoclusters built on runs of genes with copied coordinates, repeated products, shared defining genes, "
         "origin-crossing areas, subregions with equal coordinates. Non-trivial: refine/hmmer/filter - two hits tie "
@@ -538,6 +539,7 @@ def check_filter(spec: dict) -> dict:
 
 
 NONTRIVIAL_AREA_CLASSES = {"equal_coordinate_protoclusters", "equal_coordinate_candidates", "unordered_protoclusters",
+                           "definition_domains_equal_up_to_case", "definition_domains_equal_up_to_punctuation",
                            "region_with_several_products", "cds_with_several_definition_domains"}
 
 
@@ -549,6 +551,11 @@ def _detect_facts(spec: dict) -> dict:
 def check_detect(spec: dict) -> dict:
     facts = _detect_facts(spec)
     classes = [f"rules_{len(spec['rules'])}", "circular" if spec["circular"] else "linear"]
+    lowered = [name.lower() for name in spec["profiles"]]
+    if len(set(lowered)) < len(lowered):
+        classes.append("profile_names_equal_up_to_case")
+    if any(one != two and two.startswith(one) for one in spec["profiles"] for two in spec["profiles"]):
+        classes.append("profile_names_prefix_of_each_other")
     if spec.get("subregions"):
         classes.append("spec_subregions")
     if any(rule.get("superiors") for rule in spec["rules"]):
@@ -602,140 +609,8 @@ def _sig(func):
     return func
 
 
-@_sig
-def _enabled_types_order(sub, spec, clause, detail) -> bool:
-    """ hmm_detection.run_on_record stores list(set of rule names): only the order of 'enabled_types' in the
-        module's JSON differs, with at least two rules """
-    return (sub == "detect" and clause == "results_json_differs" and detail.get("kind") == "list_order"
-            and detail.get("where") == "records[].modules.antismash.detection.hmm_detection.enabled_types"
-            and len(spec["rules"]) >= 2)
-
-
-# Findings that were fixed in /repo while this check was built (refine equal starts 1cba1c5d, filter equal scores
-# c99f1795, definition_domains / gene_functions order 6282df77) have no signature any more: their witnesses are
-# ordinary regressions in replays/C17/fixed-*.json and any recurrence is a plain violation.
-
-_CANDIDATE_ORDER = {
-    "areas_differs": {
-        ("candidates[].protoclusters", "list_order"), ("candidates[].protocluster_keys", "list_order"),
-        ("candidates[].products", "list_order"), ("candidates[].product_string", "value"),
-        ("candidates[].detection_rules", "list_order"), ("regions[].products", "list_order"),
-        ("regions[].detection_rules", "list_order"), ("regions[].detection_rules[]", "value")},
-    "genbank_differs": {
-        (f"{feature}./{qualifier}", kind)
-        for feature, qualifier in (("cand_cluster", "protoclusters"), ("cand_cluster", "product"),
-                                   ("cand_cluster", "detection_rules"), ("region", "product"), ("region", "rules"))
-        for kind in ("lines_reordered", "lines_changed")},
-    "results_json_differs": {
-        ("records[].features[].qualifiers.protoclusters", "list_order"),
-        ("records[].features[].qualifiers.product", "list_order"),
-        ("records[].features[].qualifiers.detection_rules", "list_order"),
-        ("records[].features[].qualifiers.rules", "list_order"),
-        ("records[].features[].qualifiers.rules[]", "value"),
-        ("records[].areas[].products", "list_order"),
-        ("records[].areas[].candidates[].protoclusters", "list_order")},
-}
-_REGION_PROTOCLUSTER_FIELD = re.compile(r"^records\[\]\.areas\[\]\.protoclusters\.\d+\."
-                                        r"(product|category|tool|start|end|core_start|core_end)$")
-
-
-def _equal_coordinate_case(detail: dict) -> bool:
-    """ the input class of both area-order findings, and no difference in what the areas are """
-    if "unordered_protoclusters" not in (detail.get("result_classes") or []):
-        return False
-    return not {"areas_sets", "protoclusters"} & set(detail.get("upstream") or [])
-
-
-@_sig
-def _candidate_protocluster_order(sub, spec, clause, detail) -> bool:
-    """ create_candidates_from_protoclusters sorts sets of identity-hashed protoclusters with a comparison that
-        ties on equal coordinates: the record holds two protoclusters with the same location AND the same areas
-        are formed AND only the order of protoclusters inside a candidate cluster (and what is derived from it:
-        product order, rule order, their GenBank/JSON renderings) differs """
-    if sub not in ("detect", "areas") or not _equal_coordinate_case(detail):
-        return False
-    if clause == "region_genbank_differs":
-        clause = "genbank_differs"
-    return (detail.get("where"), detail.get("kind")) in _CANDIDATE_ORDER.get(clause, ())
-
-
-_AREA_QUALIFIERS = ("candidate_cluster_number|kind|product|protoclusters|detection_rules|candidate_cluster_numbers|"
-                    "protocluster_number|aStool|category|contig_edge|core_location|cutoff|detection_rule|neighbourhood|"
-                    "tool|rules|region_number|subregion_numbers")
-_CANDIDATE_QUALIFIER = re.compile(r"^records\[\]\.features\[\]\.(type|location|qualifiers|qualifiers\.(" + _AREA_QUALIFIERS
-                                  + r")(\[\])?)$")
-_AREA_FEATURE_LINES = re.compile(r"^(protocluster|proto_core|cand_cluster)\./\w+"
-                                 r"(<>(protocluster|proto_core|cand_cluster)\./\w+)?$")
-
-
-@_sig
-def _equal_location_candidate_order(sub, spec, clause, detail) -> bool:
-    """ create_candidates_from_protoclusters appends the single candidates while iterating set(unassigned) and
-        then sorts with a comparison that ties on equal locations: the record holds two candidate clusters that
-        the comparison does not order AND the same areas are formed AND only the order / numbering of candidate
-        clusters differs - in the area dumps, and in the writers as the numbering qualifiers and the mutual order
-        of the protocluster / proto_core / cand_cluster features (Record.to_biopython sorts all features with the
-        same comparison, so the order of the candidates decides where the equal-location features end up) """
-    if sub not in ("detect", "areas") or "unordered_candidates" not in (detail.get("result_classes") or []):
-        return False
-    if {"areas_sets", "protoclusters"} & set(detail.get("upstream") or []):
-        return False
-    where = detail.get("where", "")
-    if clause == "areas_differs":
-        return where.startswith("candidates[].") or where == "regions[].candidates"
-    if clause in ("genbank_differs", "region_genbank_differs"):
-        return bool(_AREA_FEATURE_LINES.match(where)) or where == "region./candidate_cluster_numbers"
-    if clause == "results_json_differs":
-        return bool(_CANDIDATE_QUALIFIER.match(where)) or where.startswith("records[].areas[].candidates")
-    return False
-
-
-@_sig
-def _hybrid_member_listed_twice(sub, spec, clause, detail) -> bool:
-    """ _find_hybrids walks `sorted(unassigned, key=core start)` - a set, ties in set order - from a bisected index and,
-        for a hybrid whose core crosses the origin, a second time from the start: depending on the tie order a contained
-        protocluster is appended to the group once or twice.  Circular record with protoclusters the comparison does not
-        order AND the areas differ only in a candidate listing one of its protoclusters twice (everything downstream of
-        that: the candidate's protocluster / product / rule lists and their renderings) """
-    if sub not in ("detect", "areas") or not spec.get("circular"):
-        return False
-    if "unordered_protoclusters" not in (detail.get("result_classes") or []):
-        return False
-    where = detail.get("where", "")
-    upstream = detail.get("upstream") or []
-    if clause == "candidate_member_repeats_differs":
-        return "areas_sets" not in upstream and "protoclusters" not in upstream
-    if "candidate_member_repeats" not in upstream or "areas_sets" in upstream or "protoclusters" in upstream:
-        return False
-    if clause == "areas_differs":
-        return where.startswith("candidates[].") or where.startswith("regions[].detection_rules")
-    if clause in ("genbank_differs", "region_genbank_differs"):
-        return (where.startswith("cand_cluster./") or where.startswith("region./rules")
-                or detail.get("kind") == "line_count")
-    if clause == "results_json_differs":
-        return bool(_CANDIDATE_QUALIFIER.match(where)) or where.startswith("records[].areas[].candidates")
-    return False
-
-
-@_sig
-def _region_unique_protocluster_order(sub, spec, clause, detail) -> bool:
-    """ Region.get_unique_protoclusters sorts a set of identity-hashed protoclusters without the documented
-        product tie-break (regions not crossing the origin): the record holds two protoclusters with the same
-        location AND the same areas are formed AND only the order of a region's protoclusters differs
-        (the 'areas' section of the results JSON is numbered by that order) """
-    if sub not in ("detect", "areas") or not _equal_coordinate_case(detail):
-        return False
-    if "unordered_in_plain_region" not in (detail.get("result_classes") or []):
-        return False        # regions crossing the origin have the product tie-break
-    where, kind = detail.get("where", ""), detail.get("kind")
-    if clause == "areas_differs":
-        return kind == "list_order" and where in ("regions[].unique_protoclusters",
-                                                  "regions[].unique_protocluster_numbers")
-    if clause == "results_json_differs":
-        return ((kind == "value" and bool(_REGION_PROTOCLUSTER_FIELD.match(where)))
-                or (kind == "list_order" and where == "records[].areas[].candidates[].protoclusters")
-                or (kind == "value" and where == "records[].areas[].candidates[].protoclusters[]"))
-    return False
+# Every finding of this check has been repaired in /repo (see notes/C17.md and known_findings.json); their witnesses are
+# ordinary regressions in replays/C17/fixed-*.json and no signature is left: any disagreement is a plain violation.
 
 
 # =========================================================================== generators
@@ -830,6 +705,24 @@ def filter_specs(draw) -> dict:
 
 
 DYNAMIC_PROFILES = ["pa", "pb", "pc", "pd", "pe", "pf"]
+# six profile names per case; besides the plain pool, names that only a careless sort key or text handling tells
+# apart: equal up to case, prefixes of each other, '-' versus '_', digits versus letters
+PROFILE_POOLS = {
+    "plain": DYNAMIC_PROFILES,
+    "case": ["PKS_ks", "PKS_KS", "pks_ks", "Pks_Ks", "mvd", "MVK"],
+    "prefix": ["ks", "ksA", "ksAB", "ks-A", "ks_A", "ks1"],
+    "mixed": ["a1", "A1", "a-1", "a_1", "a10", "a2"],
+}
+POOL_CHOICES = ["plain", "plain", "case", "case", "prefix", "mixed"]
+# pairs of one pool that are easily confused; two cases in three of a non-plain pool make such a pair define the
+# first rule together on one gene
+CONFUSABLE = {
+    "case": [["PKS_ks", "PKS_KS"], ["pks_ks", "PKS_KS"], ["Pks_Ks", "pks_ks"], ["mvd", "MVK"]],
+    "prefix": [["ks", "ksA"], ["ks-A", "ks_A"], ["ksA", "ksAB"], ["ks", "ks1"]],
+    "mixed": [["a1", "A1"], ["a-1", "a_1"], ["a1", "a10"], ["A1", "a2"]],
+}
+PAIR_TEMPLATES = ["{a} and {b}", "cds({a} and {b})", "{a} and {b} and {c}", "minimum(2, [{a}, {b}, {c}])",
+                  "cds({a} and {b} and {c})", "({a} or {c}) and {b}"]
 RULE_NAMES = ["T1PKS", "NRPS", "rule-c", "other_d"]
 CONDITION_TEMPLATES = [
     "{a}", "{a}", "{a} and {b}", "{a} and {b}", "{a} or {b}", "{a} or {b}", "cds({a} and {b})",
@@ -840,8 +733,8 @@ CONDITION_TEMPLATES = [
 EXTENDER_TEMPLATES = ["{a}", "{a}", "cds({a} or {b})", "cds({a} and {b})"]
 
 
-def _fill(draw, template: str) -> str:
-    picks = draw(st.permutations(DYNAMIC_PROFILES))
+def _fill(draw, template: str, pool: list) -> str:
+    picks = draw(st.permutations(pool))
     return template.format(a=picks[0], b=picks[1], c=picks[2], d=picks[3])
 
 
@@ -868,12 +761,18 @@ def _genes(draw, cutoffs: list, max_genes: int = 8) -> tuple:
 def detect_specs(draw) -> dict:
     shared_cutoff = draw(st.sampled_from([30, 100, 300, 1000]))
     shared_neighbourhood = draw(st.sampled_from([0, 20, 100, 500]))
+    theme = draw(st.sampled_from(POOL_CHOICES))
+    pool = list(PROFILE_POOLS[theme])
+    pair = draw(st.sampled_from(CONFUSABLE[theme])) if theme != "plain" and draw(st.integers(0, 2)) > 0 else None
     rules = []
     for index in range(draw(st.sampled_from([1, 2, 2, 3, 3, 4]))):
-        if rules and draw(st.integers(0, 3)) == 0:
+        if pair is not None and not rules:
+            third = draw(st.sampled_from([name for name in pool if name not in pair]))
+            conditions = draw(st.sampled_from(PAIR_TEMPLATES)).format(a=pair[0], b=pair[1], c=third)
+        elif rules and draw(st.integers(0, 3)) == 0:
             conditions = rules[draw(st.integers(0, len(rules) - 1))]["conditions"]    # a second rule, same conditions
         else:
-            conditions = _fill(draw, draw(st.sampled_from(CONDITION_TEMPLATES)))
+            conditions = _fill(draw, draw(st.sampled_from(CONDITION_TEMPLATES)), pool)
         own = draw(st.integers(0, 3)) == 0
         rule = {"name": RULE_NAMES[index], "category": draw(st.sampled_from(["catA", "catA", "catB"])),
                 "cutoff": draw(st.sampled_from([30, 100, 300, 1000])) if own else shared_cutoff,
@@ -882,7 +781,7 @@ def detect_specs(draw) -> dict:
         if rules and draw(st.integers(0, 4)) == 0:
             rule["superiors"] = [rules[draw(st.integers(0, len(rules) - 1))]["name"]]
         if draw(st.integers(0, 5)) == 0:
-            rule["extenders"] = _fill(draw, draw(st.sampled_from(EXTENDER_TEMPLATES)))
+            rule["extenders"] = _fill(draw, draw(st.sampled_from(EXTENDER_TEMPLATES)), pool)
         rules.append(rule)
     cutoffs = sorted({rule["cutoff"] for rule in rules})
     genes, last_end = draw(_genes(cutoffs))
@@ -899,11 +798,17 @@ def detect_specs(draw) -> dict:
     hits: dict = {}
     rich = draw(st.booleans())
     for gene in genes:
-        chosen = draw(st.lists(st.sampled_from(DYNAMIC_PROFILES), min_size=1 if rich else 0, max_size=5 if rich else 3,
+        chosen = draw(st.lists(st.sampled_from(pool), min_size=1 if rich else 0, max_size=5 if rich else 3,
                                unique=True))
         if chosen:
             hits[gene["name"]] = [[name, draw(st.sampled_from([10.0, 20.0, 20.0, 50.0])),
                                    draw(st.sampled_from([5, 10, 20]))] for name in chosen]
+    if pair is not None:       # one gene carries both members of the pair
+        name = draw(st.sampled_from(genes))["name"]
+        present = {hit[0] for hit in hits.get(name, [])}
+        for member in pair:
+            if member not in present:
+                hits.setdefault(name, []).append([member, 20.0, 10])
     subregions = []
     if draw(st.integers(0, 3)) == 0:
         for index in range(draw(st.integers(1, 2))):
@@ -918,7 +823,7 @@ def detect_specs(draw) -> dict:
                 start, end = subregions[0]["loc"]["parts"][0]
             subregions.append({"loc": {"parts": [[start, end]], "strand": 1}, "tool": draw(st.sampled_from(["t1", "t2"])),
                                "label": f"s{index}"})
-    return {"L": length, "circular": circular, "genes": genes, "profiles": list(DYNAMIC_PROFILES), "hits": hits,
+    return {"L": length, "circular": circular, "genes": genes, "profiles": pool, "hits": hits,
             "rules": rules, "subregions": subregions}
 
 
@@ -1026,11 +931,11 @@ def run(ctx) -> None:
     _POOL_SEEDS = seeds
     try:
         # shards=1: the pool of children is the parallelism; nothing is forked while the pipes are open
-        ctx.hyp("refine", refine_specs(), max_examples=ctx.pick(400, 4000), shards=1)
-        ctx.hyp("hmmer", hmmer_specs(), max_examples=ctx.pick(120, 1200), shards=1)
-        ctx.hyp("filter", filter_specs(), max_examples=ctx.pick(220, 2000), shards=1)
-        ctx.hyp("detect", detect_specs(), max_examples=ctx.pick(180, 2500), shards=1)
-        ctx.hyp("areas", areas_specs(), max_examples=ctx.pick(180, 3000), shards=1)
+        ctx.hyp("refine", refine_specs(), max_examples=ctx.pick(350, 4000), shards=1)
+        ctx.hyp("hmmer", hmmer_specs(), max_examples=ctx.pick(100, 1200), shards=1)
+        ctx.hyp("filter", filter_specs(), max_examples=ctx.pick(200, 2000), shards=1)
+        ctx.hyp("detect", detect_specs(), max_examples=ctx.pick(170, 2500), shards=1)
+        ctx.hyp("areas", areas_specs(), max_examples=ctx.pick(160, 3000), shards=1)
         ctx.extra["cases_showing_only_known_findings"] = {
             sub: {"cases": stats["cases"], "distinct_nontrivial": len(stats["nontrivial"]),
                   "classes": dict(sorted(stats["classes"].items()))}
